@@ -233,6 +233,9 @@ public:
         } else { (void)perKernel; (void)merged; (void)mergeSeed; return false; }
     }
     bool isTaskBased() const override { return execIsTask(Exec); }
+    long effectiveBlockSize() override {
+        if constexpr (Tsm) return tree->getNbElementsPerGroupSource(); else return tree->getNbElementsPerGroup();
+    }
     long query(uint64_t seed) override {
         // every leaf and cell the tree holds must be found, at the recorded place; random other indexes must be found iff they exist
         long wrong = 0;
